@@ -12,6 +12,7 @@ package serializer
 
 /*@
 global itemCalls Int        -- how often ReadSequenceOfObjects invoked its item deserializer (ghost)
+global lastitem Int       -- bytes consumed by the item deserializer call last made (ghost)
 global lenok Bool           -- ReadSequenceOfObjects has read a length field (ghost)
 global bchecked Bool        -- ReadSequenceOfObjects has checked that length against the array bounds (ghost)
 
@@ -226,7 +227,11 @@ func Deserializer.ReadSequenceOfObjects
     ensures err == nil ==> 0 <= n && n <= len(b)          -- what serix.decode* and every generated Deserialize promise
     ghost at return: itemCalls = itemCalls + 1
   callback arrayElementValidator(index, next) (verr)      -- the validator closures only touch their own captured state
-  modifies d.offset, d.err, ghost(itemCalls), ghost(lenok), ghost(bchecked)
+    -- the validator is shown exactly the bytes of the element just read - not the rest of the input behind it (a
+    -- duplicate / order check over "element plus whatever follows" accepts repeated elements)
+    requires len(next) == lastitem && base(next) == base(d.src)
+  modifies d.offset, d.err, ghost(itemCalls), ghost(lenok), ghost(bchecked), ghost(lastitem)
+  ghost after call Deserializer.ReadSequenceOfObjects#itemDeserializer: lastitem = r0
   ghost at entry: lenok = false
   ghost at entry: bchecked = false
   ghost after call Deserializer.readSliceLength: lenok = (r1 == nil)
@@ -246,6 +251,10 @@ func ArrayRules.CheckBounds
 -- builds the validator closures; touches nothing that exists already
 func ArrayRules.ElementValidationFunc
   requires ar != nil
+  -- each at-most-one-of-each-type mode gets the validator of ITS type-code width (the uint32 rule keyed on the first byte
+  -- only would take type codes that agree modulo 256 for the same type)
+  ghost before call ArrayRules.AtMostOneOfEachTypeValidator #1: assert arg1 == TypeDenotationByte
+  ghost before call ArrayRules.AtMostOneOfEachTypeValidator #2: assert arg1 == TypeDenotationUint32
 func ArrayRules.ElementValidationFunc$1
   requires true
 func ArrayRules.ElementUniqueValidator
